@@ -22,9 +22,12 @@ CHECKS = {
              "event sequence, so C12_conservation_of_translation is a theorem about the current source; (b) the file is compiled into the harness by #[path], generated histories are run, and the "
              "verified boolean checker and the model are evaluated inside Coq on the implementation's outputs; (c) end to end through the converter: recordings with PERF_RECORD_SWITCH records "
              "(in / out / out with the preempted flag) and samples of one thread are converted by `samply import` and the CPU delta serialized with each sample is compared with the model's, "
-             "the clause 'the deltas handed out sum to the time observed running' being decided on the observation (Tie/C12.v verdict_e2e).",
+             "the clause 'the deltas handed out sum to the time observed running' being decided on the observation (Tie/C12.v verdict_e2e); (d) the same in the converter's sched:sched_switch mode "
+             "(a tracepoint event next to the main event, no context-switch records), where the off-CPU samples reach the profile: every sample of the thread's table - time, CPU delta, weight - against the model driven as "
+             "handle_main_event_sample drives the handler, both conservation clauses decided on the observed table (verdict_e2e_sched); that driving is itself modelled (sched_events / sched_expect) and C12_sched_mode_conservation, C12_sched_mode_table and "
+             "C12_sched_checker_accepts_model prove, for every interval and history, that the table it leaves conserves CPU time and sleeping time and is accepted by the decision function.",
         note="Trusted: Coq kernel; tools/xlate_cs.py (the reading of the Rust subset: u64 arithmetic with panics on underflow / division by zero / debug_assert, struct updates, match on the state enum); harness h_incl (reads the private accumulators through the Debug rendering); generators. "
-             "Hypotheses: I > 0, nondecreasing timestamps (the property's quantifier). Not covered: the converter constructing the handler with interval 0; per_cpu.rs callers; off-CPU samples end to end (the converter emits them only with a sched:sched_switch stack).",
+             "Hypotheses: I > 0, nondecreasing timestamps (the property's quantifier). Not covered: the converter constructing the handler with interval 0; per_cpu.rs callers; off-CPU samples end to end in the CONTEXT_SWITCH mode (the converter emits them only with a sched:sched_switch stack; they are observed in the sched_switch mode).",
         technique="Coq proof (invariant + conservation by induction over the event history) over a model that is proved equal to a translation of the source regenerated on every run + differential correspondence run with a verified checker evaluated by vm_compute",
         design="4/C12"),
     "C04": dict(
@@ -169,7 +172,7 @@ CHECKS = {
              "(CandidatePathInfo::InDyldCache; the cache holding the requested build, another build under the same install path, or no such path) and corrupted companion files, and evaluating the model on the "
              "standalone outcomes of the same candidates.",
         note="Trusted: Coq kernel; harness h_symbols (in-memory helper, own CRC32); Python's independent LC_UUID / build-id -> debug id computation. Each candidate is abstracted to its standalone outcome "
-             "(which id samply itself reads from the file; for an image inside a generated shared cache: the LC_UUID the generator put there; for every ELF candidate the id is also compared with an independent reading of its GNU build-id note).",
+             "(which id samply itself reads from the file; for an image inside a generated shared cache: the LC_UUID the generator put there; for every ELF candidate the id is also compared with an independent reading of its GNU build-id note or, for a file without one, of the first 4096 bytes of its .text section).",
         technique="Coq proof (characterisation of the first-match candidate loops, id comparisons and fat member selection) + differential correspondence run evaluated by vm_compute",
         design="4/C06"),
     "C16": dict(
